@@ -644,6 +644,8 @@ int tls13_process_client_hello_exts(const uint8_t *exts, size_t extslen,
 	uint8_t *server_exts, size_t *server_exts_len, size_t server_exts_maxlen)
 {
 	size_t len = 0;
+	int supported_versions_seen = 0;
+	int key_share_seen = 0;
 	*server_exts_len = 0;
 
 	while (extslen) {
@@ -677,17 +679,29 @@ int tls13_process_client_hello_exts(const uint8_t *exts, size_t extslen,
 			tls_process_client_signature_algorithms(ext_data, ext_datalen, &server_exts, server_exts_len);
 			break;
 		*/
+		// every response extension is appended to server_exts: an extension type must not
+		// appear twice (RFC 8446 4.2) and the response must fit into server_exts_maxlen
 		case TLS_extension_supported_versions:
-			if (tls13_process_client_supported_versions(ext_data, ext_datalen, NULL, &len) != 1
-				|| len > server_exts_maxlen) {
+			len = 0;
+			if (supported_versions_seen++
+				|| tls13_process_client_supported_versions(ext_data, ext_datalen, NULL, &len) != 1
+				|| *server_exts_len > server_exts_maxlen
+				|| len > server_exts_maxlen - *server_exts_len) {
 				error_print();
 				return -1;
 			}
 			tls13_process_client_supported_versions(ext_data, ext_datalen, &server_exts, server_exts_len);
 			break;
 		case TLS_extension_key_share:
-			if (tls13_process_client_key_share(ext_data, ext_datalen, server_ecdhe_key, client_ecdhe_public, &server_exts, server_exts_len) != 1
-				|| len > server_exts_maxlen) {
+			len = 0;
+			if (key_share_seen++
+				|| tls13_server_key_share_ext_to_bytes(&server_ecdhe_key->public_key, NULL, &len) != 1
+				|| *server_exts_len > server_exts_maxlen
+				|| len > server_exts_maxlen - *server_exts_len) {
+				error_print();
+				return -1;
+			}
+			if (tls13_process_client_key_share(ext_data, ext_datalen, server_ecdhe_key, client_ecdhe_public, &server_exts, server_exts_len) != 1) {
 				error_print();
 				return -1;
 			}
